@@ -118,8 +118,12 @@ class Concretiser:
     """Injective maps abstract -> concrete for one abstract file."""
 
     def __init__(self, rng: random.Random, base: dict[str, str] | None = None, conj_matters: bool = False,
-                 readable: bool = False):
+                 readable: bool = False, vocab: str | None = None):
+        """vocab: when given, the spelling chosen for an abstract token depends only on (vocab, kind, token) (and on
+        clashes with what is already bound): different abstract files rendered with one vocab share their words, so that
+        a process reading them one after the other sees textually equal fragments with different meanings."""
         self.rng = rng
+        self.vocab = vocab
         self.names: dict[str, str] = {}
         self.words: dict[str, str] = {}
         self.models: dict[str, str] = {}
@@ -133,10 +137,11 @@ class Concretiser:
             if n in self.names:
                 continue
             if c == n:
-                self._bind(n, self._pick(selfs))
+                self._bind(n, self._pick(selfs, self._r("self", n)))
             else:
+                r = self._r("pair", min(n, c))
                 while True:
-                    a, b = rng.choice(pairs)
+                    a, b = r.choice(pairs)
                     if a not in self.used and b not in self.used:
                         break
                 self._bind(n, a)
@@ -146,9 +151,13 @@ class Concretiser:
             # descriptors are read back by bracket matching: names balanced in (), not starting with "("
             self.free_pool = [w for w in self.free_pool if _readable(w)]
 
-    def _pick(self, pool):
+    def _r(self, kind: str, tok: str) -> random.Random:
+        return self.rng if self.vocab is None else random.Random(f"{self.vocab}/{kind}/{tok}")
+
+    def _pick(self, pool, r=None):
+        r = r or self.rng
         for _ in range(1000):
-            w = self.rng.choice(pool)
+            w = r.choice(pool)
             if w not in self.used:
                 return w
         raise RuntimeError("pool exhausted")
@@ -159,15 +168,16 @@ class Concretiser:
 
     def name(self, a: str) -> str:
         if a not in self.names:
-            self._bind(a, self._pick(self.free_pool))
+            self._bind(a, self._pick(self.free_pool, self._r("name", a)))
         return self.names[a]
 
     def word(self, a: str) -> str:
         if a.startswith("-") and len(a) > 1:
             return "-" + self.word(a[1:])
         if a not in self.words:
+            r = self._r("word", a)
             for _ in range(1000):
-                w = self.rng.choice(label_pool())
+                w = r.choice(label_pool())
                 if word_ok(w) and w not in self.used:
                     break
             self.words[a] = w
@@ -176,8 +186,9 @@ class Concretiser:
 
     def model(self, a: str) -> str:
         if a not in self.models:
+            r = self._r("model", a)
             for _ in range(1000):
-                m = self.rng.choice(model_names())
+                m = r.choice(model_names())
                 if m not in self.models.values():
                     break
             self.models[a] = m
@@ -186,8 +197,9 @@ class Concretiser:
     def lit(self, a: str) -> str:
         if a not in self.lits:
             vals = {lit_value(s) for s in self.lits.values()}
+            r = self._r("lit", a)
             for _ in range(1000):
-                s = self.rng.choice(LITERAL_SPELLINGS)
+                s = r.choice(LITERAL_SPELLINGS)
                 v = lit_value(s)
                 # distinct values, and no two literals that are negatives of each other
                 if v not in vals and -v not in vals and v != 0:
